@@ -71,19 +71,22 @@ func (a *Analysis) NoRescan() *report.RuleResult {
 						continue
 					}
 					if sel := info.Selections[se]; sel != nil && sel.Kind() == types.FieldVal {
-						if fv, ok := sel.Obj().(*types.Var); ok {
-							for k := 0; k < lexer.NumFields(); k++ {
-								if lexer.Field(k) == fv {
-									fileSized[fv] = "the input"
-								}
-							}
+						if fv, ok := sel.Obj().(*types.Var); ok && fv.Pkg() == pkg.Types {
+							fileSized[fv] = "the input"
 						}
 					}
 				}
 				return true
 			}
 			cl, ok := n.(*ast.CompositeLit)
-			if !ok || info.TypeOf(cl) == nil || info.TypeOf(cl).Underlying() != lexer {
+			if !ok || info.TypeOf(cl) == nil {
+				return true
+			}
+			// the Lexer literal, or the literal of a struct of this package it is composed of
+			if nt, isNamed := info.TypeOf(cl).(*types.Named); !isNamed || nt.Obj().Pkg() != pkg.Types {
+				return true
+			}
+			if _, isStruct := info.TypeOf(cl).Underlying().(*types.Struct); !isStruct {
 				return true
 			}
 			for _, el := range cl.Elts {
@@ -102,14 +105,19 @@ func (a *Analysis) NoRescan() *report.RuleResult {
 			return true
 		})
 	}
-	for i := 0; i < lexer.NumFields(); i++ {
-		st, ok := lexer.Field(i).Type().Underlying().(*types.Struct)
+	var tables func(outer *types.Struct, depth int)
+	tables = func(outer *types.Struct, depth int) {
+	for i := 0; i < outer.NumFields(); i++ {
+		st, ok := outer.Field(i).Type().Underlying().(*types.Struct)
 		if !ok {
 			continue
 		}
-		named, _ := lexer.Field(i).Type().(*types.Named)
+		named, _ := outer.Field(i).Type().(*types.Named)
 		if named == nil || named.Obj().Pkg() != pkg.Types {
 			continue
+		}
+		if depth < 3 {
+			tables(st, depth+1) // structs grouped inside structs
 		}
 		for j := 0; j < st.NumFields(); j++ {
 			fv := st.Field(j)
@@ -148,6 +156,8 @@ func (a *Analysis) NoRescan() *report.RuleResult {
 			}
 		}
 	}
+	}
+	tables(lexer, 0)
 	res.Count("file-sized-fields", len(fileSized))
 	if len(fileSized) == 0 {
 		res.Unknown("anchor/fields", "-", "", "undecided:anchor: no file-sized field found (NewLexer no longer stores its []byte parameter in a Lexer literal?)")
